@@ -16,6 +16,9 @@ TEXT = {
     "C15": dict(technique="property-based testing (rapid): reference matcher run right-to-left + mirror-image metamorphic relation",
                 text="Same machinery as C01 with RightToLeft: reference search descends from the start offset, consumes leftwards, evaluates concatenations last-to-first. Plus an oracle-independent leg: match_RTL(P,t) is the mirror of match_LTR(reverse(P),reverse(t)).",
                 note="Trusts the reference matcher and the AST reversal of the harness.", ref="§6 C15"),
+    "C03": dict(technique="property-based testing (rapid): differential - public find calls vs verif-only naive scan of the same compiled program",
+                text="Generated-input search over F-accel templates (one per candidate-search mode) and corpus patterns x options x code-gen/bitmap x near-miss inputs x every start offset: FindRunesMatchStartingAt, FindStringMatchStartingAt and FindNextMatch must equal the naive scan (no candidate finder, no prefix filter, no length cut-off). Every find mode has a measured floor.",
+                note="The naive scan shares the interpreter with the engine (isolates acceleration only). Trusts the hook in verif_hooks.go.", ref="§6 C03"),
 }
 
 PENDING = "check not built yet in this session (work in progress; see DESIGN.md section 6 for the planned generated-input check)"
